@@ -5,7 +5,7 @@
 cd /verif
 for m in seeded/*/meta.json; do
   grep -q '"suite_with_patch": "pending' $m || continue
-  d=$(dirname $m); n=$(basename $d); w=/tmp/confirm/s-$n
+  d=$(realpath $(dirname $m)); n=$(basename $d); w=/tmp/confirm/s-$n
   mkdir -p /tmp/confirm
   base=$(python3 -c "import json;print(json.load(open('$m')).get('base','HEAD'))")
   git -C /repo worktree add -q --detach $w $base || continue
